@@ -87,6 +87,13 @@ func (m *Module) WriteTo(w io.Writer) (n int64, err error) {
 	if err := m.AssignMetadataIDs(); err != nil {
 		panic(fmt.Errorf("unable to assign metadata IDs of module; %v", err))
 	}
+	// Assign local IDs of functions; global variable initializers, printed
+	// before function bodies, may refer to unnamed basic blocks (blockaddress).
+	for _, f := range m.Funcs {
+		if err := f.AssignIDs(); err != nil {
+			panic(fmt.Errorf("unable to assign IDs of function %q; %v", f.Ident(), err))
+		}
+	}
 	// Source filename.
 	if len(m.SourceFilename) > 0 {
 		// 'source_filename' '=' Name=StringLit
